@@ -33,7 +33,7 @@ ASSUMPTIONS = [
     "node names never end in the '_prime' suffix the library uses for transformed latents",
 ]
 BUDGET = {
-    "quick": dict(examples=250, shards=16, seconds=200),
+    "quick": dict(examples=800, shards=16, seconds=200),
     "thorough": dict(examples=5000, shards=16, seconds=2400),
 }
 ESSENTIAL_LABELS = {t: ["kind:roundtrip", "kind:dag", "kind:evans", "rule:widow", "rule:unidirectional", "rule:redundant", "rule:latent-with-parents", "nested-latents", "isolated-node"] for t in ("quick", "thorough")}
